@@ -262,6 +262,12 @@ class Check:
         return ok
 
     def finish(self, level=None, trusted=None, rule="", assumptions=None, technique_note=""):
+        # every check also takes its share of the wild histories (vlib/wild.py): one broad differential stream, computed once
+        # per tree and shared through a cache
+        if os.environ.get("VERIF_NO_WILD") != "1":
+            from .wild import wild_stream
+            wild_stream(self)
+            rule = (rule + "; + wild histories (random registration/context/descriptor/program histories on two threads, model vs crate)").lstrip("; ")
         wall = time.time() - self.t0
         if level is None:
             level = LEVELS.get(self.pid, "translation_validation")
